@@ -463,7 +463,7 @@ func c10Apply(s *treeState, op Op) *Violation {
 			return violation("C10", "accepted-unrepresentable", "C10:accepted:int-overflow:"+ctx, "SetNode(%s, %s, TolerateJSONInconsistencies) succeeded although the value does not fit the leaf's type %s", path, model.DescribeTV(tv), op.arg("gotype"))
 		}
 		// a "bad" set that was accepted still has to respect the frame condition
-		if v := c10Frame(before, after, pes, path, "", "C10:frame-after-bad:"+op.arg("bad")+":"+ctx); v != nil {
+		if v := c10Frame(before, after, pes, path, "", "C10:frame-after-bad:"+op.arg("bad")+":"+ctx, preferShadow); v != nil {
 			return v
 		}
 		s.st.logf("set-bad %s (%s) -> accepted", path, op.arg("bad"))
